@@ -136,6 +136,7 @@ def report(pid, tier, seed, mod, results, wall):
     bounded_params = dict()
     bounded_parts = list()
     canaries = dict()
+    downgraded = list()
     for res in results:
         fam = res['family']
         if res.get('crash'):
@@ -145,6 +146,8 @@ def report(pid, tier, seed, mod, results, wall):
             functions.setdefault(k, v)
         for k, v in (res.get('bounded_params') or {}).items():
             bounded_params.setdefault(k, v)
+        if res.get('downgraded'):
+            downgraded.append((fam, res['downgraded']))
         b = res.get('bounded')
         if b:
             n_bounded_eval += b.get('evaluations', 0)
@@ -251,6 +254,9 @@ def report(pid, tier, seed, mod, results, wall):
             print(f'  family: {fam}\n  obligation: {rec["name"]}')
             if real:
                 print(f'  real code fails: {json.dumps(rp.get("failed"), default=str)[:400]}')
+    for fam, why in downgraded[:20]:
+        print(f'DOWNGRADED property={pid} family={fam}: deductive proof not applicable to the current source '
+              f'({why[:200]}); contract postconditions evaluated on the real code instead (bounded), all hold')
     for fam, name in undecided[:20]:
         print(f'UNDECIDED property={pid} family={fam} obligation={name}')
     for fam, tb, kind in crashes[:10]:
@@ -284,6 +290,7 @@ def report(pid, tier, seed, mod, results, wall):
         lemma_schema_instances=dict(total=sum(len(r.get('instances') or []) for r in results), sample=next((r['instances'][:12] for r in results if r.get('instances')), [])),
         slowest_families=sorted(((r.get('wall_s', 0), r['family']) for r in results), reverse=True)[:8],
         undecided=[f'{a}: {b}' for a, b in undecided][:50],
+        downgraded_families=[dict(family=a, reason=b[:300], decided_by='bounded evaluation of the contract postconditions on the real code; not counted as proved') for a, b in downgraded][:50],
         known_findings_reported=sorted(seen_known),
         samples=samples or [dict(note='no sample collected')],
         explanation=getattr(mod, 'EXPLANATION', ''),
@@ -307,7 +314,7 @@ def report(pid, tier, seed, mod, results, wall):
           f'discharged={n_dis} (unbounded={n_unbounded}, per-shape={n_pershape}) '
           f'bounded-evals={n_bounded_eval} canaries={n_canary} '
           f'violations={len(violations)} known={len(seen_known)} '
-          f'undecided={len(undecided)} wall={wall:.1f}s')
+          f'undecided={len(undecided)} downgraded={len(downgraded)} wall={wall:.1f}s')
     if violations:
         return 1
     if crashes or vacuous:
